@@ -424,6 +424,7 @@ func runC10(r *Run) {
 		}, "corpus")
 	}
 	c10SharedWriterSets(r, snap)
+	c10SaveLevelScope(r, snap)
 	for i := r.N(300, 8000); i > 0; i-- {
 		ops := genTreeOps(r.R, TreeProfile{MaxOps: 40})
 		c10One(r, snap, ops, "random")
@@ -468,6 +469,44 @@ func replayC10(r *Run, file string) {
 	loadReplay(file, &c)
 	snap := slog.VerifSnapshot()
 	r.Coq("Require Import Verif.Model.Base Verif.Model.Mode Verif.Model.Writers Verif.Model.Tree Verif.Corr.C10.", "case", "ok")
+	if c.Kind == "save-level-scope" {
+		c10SaveLevelScope(r, snap)
+		finishReplay(r)
+		return
+	}
 	c10One(r, snap, c.Ops, "replay")
 	finishReplay(r)
+}
+
+// c10SaveLevelScope: SaveLevelAndSet is a scope around the PACKAGE default level (what a detached New starts at):
+// after the function it returned has run, that level is what it was, also when the default logger had been given a
+// level of its own in between (direct oracle)
+func c10SaveLevelScope(r *Run, snap *slog.VerifRegistry) {
+	for _, pkg := range []slog.Level{slog.InfoLevel, slog.WarnLevel, slog.TraceLevel} {
+		for _, own := range []slog.Level{slog.ErrorLevel, slog.DebugLevel, slog.OffLevel} {
+			for _, inside := range []slog.Level{slog.DebugLevel, slog.OffLevel, slog.AlwaysLevel} {
+				resetProcess(snap)
+				slog.SetLevel(pkg)
+				slog.Default().SetLevel(own) // the default logger's own level now differs from the package level
+				restore := slog.SaveLevelAndSet(inside)
+				in := slog.GetLevel()
+				restore()
+				after := slog.GetLevel()
+				fresh := slog.New().Level()
+				r.Count(true, fmt.Sprintf("savelevel %d %d %d", pkg, own, inside))
+				r.Dist["save-level-scope"]++
+				rep := map[string]any{"kind": "save-level-scope", "package_level": int(pkg), "default_logger_level": int(own), "level_inside": int(inside),
+					"observed_inside": int(in), "observed_after": int(after), "new_logger_after": int(fresh)}
+				switch {
+				case in != inside:
+					r.Fail("C10/save-level-scope", fmt.Sprintf("inside SaveLevelAndSet(%v) the package level is %v", inside, in), rep)
+				case after != pkg:
+					r.Fail("C10/save-level-scope", fmt.Sprintf("package level %v, default logger set to %v, SaveLevelAndSet(%v) and its restore: the package level is now %v", pkg, own, inside, after), rep)
+				case fresh != pkg:
+					r.Fail("C10/save-level-scope", fmt.Sprintf("after the scope a detached New() starts at %v, the package level is %v", fresh, pkg), rep)
+				}
+			}
+		}
+	}
+	resetProcess(snap)
 }
